@@ -146,6 +146,104 @@ def gen_ops(ctx, stop, depth):
     return ops
 
 
+EXH, TRANS = (24, 23, 105, 12), (103, 4)      # EMFILE ENFILE ENOBUFS ENOMEM / ECONNABORTED EINTR (Linux values, as in the AST)
+
+
+def acceptor_oracle(op, out):
+    """the statement, for the accepting thread: every accepted connection is handed over exactly once or released exactly once;
+    the wait for the backlog happens on EVERY descriptor / memory exhaustion, before accept is called again; the stop drains"""
+    w = op.split()
+    if w[:2] != ["job", "run"]:
+        return None
+    trips = [list(map(int, t.split(":"))) for t in w[2:]]
+    try:
+        evs, fini = out.rsplit(" fini=", 1)
+    except ValueError:
+        return "unparsable harness output"
+    if fini.strip() != "1":
+        return "job_accept ended with work_fini (w, %s): a graceful stop must wait for the accepted requests" % fini.strip()
+    segs, cur = [], None
+    for e in [x for x in evs.split(";") if x]:
+        if e == "accept()":
+            cur = []; segs.append(cur)
+        elif cur is not None and e != "gids_update()":
+            cur.append(e)
+    if len(segs) != len(trips):
+        return "%d calls of accept for %d scripted trips" % (len(segs), len(trips))
+    for i, ((gr, ra, e, t, rn, rc, rb, rq), s) in enumerate(zip(trips, segs)):
+        if ra < 0 and e in EXH:
+            if s.count("work_wait()") != 1 or s[-1:] != ["work_wait()"]:
+                return "trip %d: accept failed with errno %d (out of descriptors / memory) but the acceptor did not wait for the backlog before accepting again (%s)" % (i + 1, e, ";".join(s) or "nothing")
+        elif ra < 0:
+            if s:
+                return "trip %d: a transient accept error (errno %d) was followed by %s" % (i + 1, e, ";".join(s))
+        else:
+            q = s.count("work_queue()")
+            rel = s.count("close(%d)" % ra) + s.count("m_msg_destroy()")
+            handed = q == 1 and rq >= 0
+            if q > 1:
+                return "trip %d: connection %d queued %d times" % (i + 1, ra, q)
+            if handed and rel:
+                return "trip %d: connection %d was handed to the work crew and also released by the acceptor" % (i + 1, ra)
+            if not handed and rel != 1:
+                return "trip %d: connection %d was not handed over and released %d times (leak or double release)" % (i + 1, ra, rel)
+            if rn >= 0 and rc == 0 and rb == 0 and not (q == 1):
+                return "trip %d: connection %d was accepted and set up but never queued" % (i + 1, ra)
+    return None
+
+
+def acceptor(ctx, drv):
+    """job_accept's accept loop: kernel translated from job.c (Gen/Job.lean), theorems Props/C12Job.lean, translation validation +
+    property oracle on the REAL job_accept run against scripted accept()/time()/work crew results (harness/h_job.c)."""
+    from ..gen import g_job
+    gen_ok = g_job.generate(ctx)
+    if gen_ok:
+        leanlib.check_props(ctx, "C12Job")
+    h = cbuild.build(ctx, "h_job", ["h_job.c", "src/libmissing/strlcpy.c"])
+    if not h:
+        return
+    r = ctx.rng
+    ops = []
+    def trip(t):
+        k = r.random()
+        gr = 1 if r.random() < .1 else 0
+        if k < .35:
+            return "%d:-1:%d:%d:0:0:0:0" % (gr, r.choice(EXH), t)
+        if k < .45:
+            return "%d:-1:%d:%d:0:0:0:0" % (gr, r.choice(TRANS), t)
+        return "%d:%d:0:%d:%d:%d:%d:%d" % (gr, r.randrange(3, 1000), t, r.choice([0, 0, 0, -1]), r.choice([0, 0, 0, 1, 5]), r.choice([0, 0, 0, 1]),
+                                             r.choice([0, 0, 0, -1]))
+    for n in range(400 if ctx.tier == "quick" else 4000):
+        t, ts = r.choice([0, 1000, 2 ** 31, 2 ** 40]), []
+        for _ in range(r.randrange(1, 12)):
+            t += r.choice([0, 0, 1, 1, 30, 59, 60, 61, 120, 4000])       # around the 60 s log rate limit
+            ts.append(trip(t))
+        ops.append("job run " + " ".join(ts))
+    # every errno class twice in a row inside / outside the log interval, same and different errno
+    for e1 in EXH:
+        for e2 in EXH:
+            for dt in (0, 1, 59, 60, 61):
+                ops.append("job run 0:-1:%d:1000:0:0:0:0 0:-1:%d:%d:0:0:0:0 0:7:0:%d:0:0:0:0" % (e1, e2, 1000 + dt, 1000 + dt))
+    for o in ops:
+        ctx.distinct(o)
+    ctx.dist("acceptor_scripts", len(ops))
+    ctx.sample(ops[3])
+    if drv and gen_ok:
+        judge.run_and_judge(ctx, "acceptor", ops, [h], [drv], oracle=acceptor_oracle, what="acceptor (job_accept)")
+    else:
+        rc, out, err = cbuild.run_lines([h], ops)
+        ctx.count(len(ops))
+        bad = None
+        for o, l in zip(ops, out):
+            why = acceptor_oracle(o, l)
+            if why:
+                bad = (o, why, l); break
+        ctx.obligation("oracle", "stream acceptor: property oracle on the real job_accept (%d scripts)" % len(ops), bad is None and rc == 0, (bad[1] if bad else err[-800:]))
+        if bad or rc != 0:
+            ctx.violation("acceptor (job_accept): " + (bad[1] if bad else "crash"), {"stream": "acceptor", "ops": [bad[0]] if bad else [], "impl_output": bad[2] if bad else err[-2000:]},
+                          found_input=True)
+
+
 def run(ctx):
     ctx.rule = ("scenario = (worker count, program of the accepting thread over work_queue/work_wait/work_fini, forced schedule of "
                 "thread picks incl. spurious wake-ups and signal-target choices), completed deterministically; the real work.c "
@@ -174,6 +272,7 @@ def run(ctx):
     ctx.log("theorems checked (%d failed)" % len(failed))
     drv = leanlib.driver(ctx)
     ctx.log("driver built")
+    acceptor(ctx, drv)
     h = cbuild.build(ctx, "h_work", ["h_work.c", "src/munged/work.c"], libs=WRAP)
     if not h:
         return
